@@ -2821,6 +2821,8 @@ impl<'a> Visitor<'a, '_, Error> for JSONValidator<'a> {
                 n,
               ));
             }
+
+            return Ok(());
           }
         } else if let Some(kind) = ident_numeric_kind(self.state.cddl, ident) {
           let matches_kind = match kind {
